@@ -357,6 +357,14 @@ def run(repo, rep):
     rep.run_borrowed(c07, {"C07-f": "C08-k"}, repo)
     rep.run_borrowed(c09, {"C09-b": "C08-k", "C09-a": "C08-k", "C09-d": "C08-k"}, repo)
     rep.run_borrowed(c07, {"C07-i": "C08-k"}, repo, only_sites=("npu_encode_weights", "encode_weights"))
+    rep.clause("C08-q", "the scale registers of every core carry that core's own range (base and length) [rule shared with C06-d]; the public accelerator enum maps to the internal member of the same name, so that API callers get their accelerator's micro-block depths [rule shared with C15-c]")
+    from . import c06 as _c06
+    from . import c15 as _c15
+
+    rep.run_borrowed(_c06, {"C06-d": "C08-q"}, repo, only_sites=("generate_biases", "generate_weights"))
+    rep.run_borrowed(_c15, {"C15-c": "C08-q"}, repo, only_sites=("architecture_features.py",))
+    rep.clause("C08-r", "the single weight buffer is as large as the largest depth slice over all cores: max_range_bytes is the maximum of the per-parity slice sizes (double_buffer_sizes), not of single (core, slice) ranges")
+    rule_max_range_bytes(repo, rep)
     rule_round5(repo, rep)
     rule_forced_output_quantisation(repo, rep)
     rep.clause("C08-o", "a synthesised zero bias has one element per output channel: fixup_bias_tensors runs after the rewrites that bring the weight tensor into its final axis order")
@@ -583,3 +591,13 @@ def rule_bias_after_reorder(repo, rep):
                     rep.check(earlier, "C08-o", site, f"{pre} runs in an earlier pass than fixup_bias_tensors", f"{pre} not found before the pass at line {ln}")
     if not found:
         raise AnalysisError("tflite_optimise_graph: fixup_bias_tensors is in no rewrite list")
+
+
+def rule_max_range_bytes(repo, rep):
+    wc = repo.mod("weight_compressor")
+    f = wc.func("NpuWeightTensor.max_range_bytes")
+    rets = [r for r in ast.walk(f) if isinstance(r, ast.Return) and r.value is not None]
+    t = str(norm(rets[0].value)) if len(rets) == 1 else ""
+    ok = len(rets) == 1 and "double_buffer_sizes" in t and "encoded_ranges" not in t and call_name(rets[0].value) == "max"
+    rep.check(ok, "C08-r", "ethosu/vela/weight_compressor.py:NpuWeightTensor.max_range_bytes", "max_range_bytes = max(double_buffer_sizes): the largest slice, all cores together",
+              f"`{t[:90]}`: encoded_ranges has one entry per (core, slice); on Ethos-U65-512 the buffer the scheduler sizes with it is half a slice: the weight DMA of 9408 bytes overruns a 4704-byte buffer and core 1's addresses lie outside it")
